@@ -115,11 +115,11 @@ fn do_delay(us: u64) {
 
 #[cfg(feature = "hooks")]
 fn hook(kind: desync::verif::PointKind, loc: &'static std::panic::Location<'static>) {
-    let mode = MODE.load(Relaxed);
-    if mode == 0 { return; }
     let kind = kind as u8;
     if kind == 13 { crate::run::on_spawn_event(); }
     if kind == 14 { crate::run::on_exit_event(); }
+    let mode = MODE.load(Relaxed);
+    if mode == 0 { return; }
     let site = site_id(loc.file(), loc.line());
     let slot = slot_for(site | kind as u64, loc as *const _ as usize);
     slot.hits.fetch_add(1, Relaxed);
